@@ -1418,7 +1418,12 @@ def WmSt.ckpt (w : WmSt) : WmCkpt :=
 sources the program registers, without any watermark yet) and `restore_checkpoint`'s
 `last_applied_watermark` -/
 def WmSt.restore (fresh : List (String × SrcWm)) (c : WmCkpt) : WmSt :=
-  { sources := c.sources.foldl (fun acc kv => upsert kv.1 (SrcWm.ofCkpt kv.2) acc) fresh,
+  -- `sources.entry(name).or_insert_with(..)` then all three fields overwritten: every checkpointed
+  -- source gets its checkpointed values, a registered source the checkpoint does not mention stays
+  -- fresh.  The listing order of a hash map is not observable (the tracker only looks sources up and
+  -- takes the minimum of their watermarks); the model lists the checkpointed sources first.
+  { sources := (c.sources.map fun kv => (kv.1, SrcWm.ofCkpt kv.2))
+      ++ fresh.filter (fun kv => !(c.sources.map (·.1)).contains kv.1),
     effective := c.effectiveMs.map fun ms => joinTs ms c.effectiveSub,
     lastApplied := match c.lastAppliedMs with
       | some ms => some (joinTs ms c.lastAppliedSub)
@@ -1612,3 +1617,23 @@ def midRun : Run :=
     kleene := some { events := [bEv], aliases := [some "b"], deferred := none } }
 
 end Varpulis.Ckpt.Witness
+
+namespace Varpulis.Ckpt
+
+/-- the tracker's restore before the repair of the millisecond truncation (`a716ea8`): watermark and
+maximum timestamp come back in whole milliseconds -/
+def SrcWm.ofCkptOld (c : SrcWmCkpt) : SrcWm :=
+  { watermark := c.watermarkMs.map ofMs, maxTs := c.maxTimestampMs.map ofMs, oooMs := c.oooMs }
+
+/-- one operation on `PerSourceWatermarkTracker` -/
+inductive WmOp where
+  | observe (src : String) (ts : Int)
+  | advance (src : String) (t : Int)
+  deriving Repr, Inhabited
+
+/-- the operation and what the caller then reads: `effective_watermark()` -/
+def WmSt.step (w : WmSt) : WmOp → WmSt × Option Int
+  | .observe src ts => let w' := w.observe src ts; (w', w'.effective)
+  | .advance src t => let w' := w.advance src t; (w', w'.effective)
+
+end Varpulis.Ckpt
